@@ -25,6 +25,7 @@ const (
 	sBlockBare   // block in place with the block type only (no message, rule or value)
 	sBlockMsg    // block in place with type and message only
 	sBlockCached // block with a result object the slot created once and returns every time
+	sBlockRearm  // block with the slot's own result object, armed anew for every entry with a cause of varying completeness
 )
 
 type SlotSpec struct {
@@ -73,6 +74,7 @@ func (P) Gen(rng *sim.Rng, tier string) *harness.Case {
 		for i := 0; i < n; i++ {
 			sp := SlotSpec{Kind: kind, Order: orders[rng.Intn(len(orders))]}
 			ownResult := kind == 1 && rng.Chance(0.15) // a slot that blocks with its one result object whenever it blocks
+			rearm := ownResult && rng.Chance(0.5)      // ... arming it anew each time
 			for e := 0; e < nEnt; e++ {
 				s := sPass
 				switch kind {
@@ -87,7 +89,7 @@ func (P) Gen(rng *sim.Rng, tier string) *harness.Case {
 					case 1, 2:
 						s = sBlock
 					case 3:
-						s = []int{sBlockPooled, sBlockPooled, sBlockBare, sBlockMsg, sBlockCached, sBlockCached}[rng.Intn(6)]
+						s = []int{sBlockPooled, sBlockPooled, sBlockBare, sBlockMsg, sBlockCached, sBlockCached, sBlockRearm, sBlockRearm}[rng.Intn(8)]
 					case 4:
 						if rng.Chance(0.5) {
 							s = sPanic
@@ -98,8 +100,11 @@ func (P) Gen(rng *sim.Rng, tier string) *harness.Case {
 						s = sPanic
 					}
 				}
-				if ownResult && (s == sBlock || s == sBlockPooled || s == sBlockBare || s == sBlockMsg) {
+				if ownResult && (s == sBlock || s == sBlockPooled || s == sBlockBare || s == sBlockMsg || s == sBlockCached || s == sBlockRearm) {
 					s = sBlockCached
+					if rearm {
+						s = sBlockRearm
+					}
 				}
 				sp.Script = append(sp.Script, s)
 			}
@@ -174,7 +179,8 @@ func (d *dummyRule) ResourceName() string { return d.name }
 type check struct {
 	slotBase
 	rule   *dummyRule
-	cached *base.TokenResult
+	cached *base.TokenResult // made once, returned as it is
+	armed  *base.TokenResult // the slot's own, armed anew for every entry
 }
 
 func (s *check) Check(ctx *base.EntryContext) *base.TokenResult {
@@ -194,6 +200,19 @@ func (s *check) Check(ctx *base.EntryContext) *base.TokenResult {
 			s.cached = base.NewTokenResultBlockedWithCause(base.BlockTypeCircuitBreaking, fmt.Sprintf("blocked by slot %d (its one result object)", s.id), s.rule, float64(s.id*1000))
 		}
 		return s.cached
+	case sBlockRearm:
+		if s.armed == nil {
+			s.armed = base.NewTokenResultPass()
+		}
+		switch e % 3 {
+		case 0:
+			s.armed.ResetToBlockedWithCause(base.BlockTypeFlow, fmt.Sprintf("re-armed by slot %d for entry %d", s.id, e), s.rule, float64(s.id*1000+e))
+		case 1:
+			s.armed.ResetToBlockedWithMessage(base.BlockTypeIsolation, fmt.Sprintf("re-armed by slot %d for entry %d", s.id, e))
+		default:
+			s.armed.ResetToBlocked(base.BlockTypeSystemFlow)
+		}
+		return s.armed
 	case sBlockBare:
 		ctx.RuleCheckResult.ResetToBlocked(base.BlockTypeSystemFlow)
 		return ctx.RuleCheckResult
@@ -339,7 +358,7 @@ func (P) Exec(c *harness.Case) *harness.Outcome {
 						o.Probe("panic_in_check")
 						break
 					}
-					if s == sBlock || s == sBlockPooled || s == sBlockBare || s == sBlockMsg || s == sBlockCached {
+					if s == sBlock || s == sBlockPooled || s == sBlockBare || s == sBlockMsg || s == sBlockCached || s == sBlockRearm {
 						blocked, blockBy = true, id
 						break
 					}
@@ -401,6 +420,17 @@ func (P) Exec(c *harness.Case) *harness.Outcome {
 				case sBlockCached:
 					wantType, wantMsg, wantVal = base.BlockTypeCircuitBreaking, fmt.Sprintf("blocked by slot %d (its one result object)", blockBy), interface{}(float64(blockBy*1000))
 					o.Probe("blocked_with_the_slots_own_result_object")
+				case sBlockRearm:
+					// the slot armed its own result for THIS entry: nothing of what it armed it with for an earlier one may show
+					o.Probe("blocked_with_a_result_armed_anew_for_this_entry")
+					switch k % 3 {
+					case 0:
+						wantMsg, wantVal = fmt.Sprintf("re-armed by slot %d for entry %d", blockBy, k), interface{}(float64(blockBy*1000+k))
+					case 1:
+						wantType, wantMsg, wantRule, wantVal = base.BlockTypeIsolation, fmt.Sprintf("re-armed by slot %d for entry %d", blockBy, k), "", nil
+					default:
+						wantType, wantMsg, wantRule, wantVal = base.BlockTypeSystemFlow, "", "", nil
+					}
 				case sBlockBare:
 					// blocked in place with the type only: nothing else may be carried, in particular nothing that an
 					// earlier entry left in the pooled result
